@@ -32,9 +32,9 @@ LearnLen(len) ==
                  peerOpen, pc, buffered, fanLeft, toRemove, dtok, dphase, lastDrain, enq, drp, torn, lost>>
 
 \* what a client received, decoded by the harness: <<id, complete>> (id 0: a cut frame at the very end)
-ObsIds(fr) == [i \in DOMAIN SelectSeq(fr, LAMBDA f : f[2] = 1) |-> SelectSeq(fr, LAMBDA f : f[2] = 1)[i][1]]
+ObsIds(fr) == LET s == SelectSeq(fr, LAMBDA f : f[2] = 1) IN [i \in DOMAIN s |-> s[i][1]]
 Complete(c) == SelectSeq(stream[c], LAMBDA ch : ch[3] = tot[ch[1]])
-CompleteIds(c) == [i \in DOMAIN Complete(c) |-> Complete(c)[i][1]]
+CompleteIds(c) == LET s == Complete(c) IN [i \in DOMAIN s |-> s[i][1]]
 ClientSaw(r) ==
   LET c == r.a[1] o == ObsIds(r.frames) IN
   \* the safety properties of the whole stream written to this client (streams only grow, so checking them here covers
@@ -57,7 +57,7 @@ TraceNext ==
        [] Ev = "tcp.accept.post"       -> Accept(A[1]) /\ clientCount' = A[2] /\ A[3] = NMeta /\ A[4] = 1 /\ Step
        [] Ev = "tcp.wake.post"         -> WakeAny /\ Step
        [] Ev = "tcp.rx.metric.post"    -> RxMetricId(A[1]) /\ Step
-       [] Ev = "tcp.rx.end.post"       -> RxEndAny /\ Step
+       [] Ev = "tcp.rx.end.post"       -> RxEndAny /\ (Len(A) = 0 \/ A[1] = Len(buffered)) /\ Step
        [] Ev = "tcp.drive.pre"         -> CASE A[2] = 1 -> FanPick(A[1]) /\ Step
                                             [] A[2] = 2 -> Obs(pc = "drive" /\ dtok = A[1] /\ dphase = 2)
                                             [] OTHER    -> Writable(A[1]) /\ Step
@@ -73,7 +73,8 @@ TraceNext ==
        [] Ev = "tcp.fanout.done.post"  -> FanDone /\ Step
        [] Ev = "tcp.remove.post"       -> Obs(A[1] \notin registered /\ clientCount <= A[2])
        [] Ev = "client.recv"           -> Obs(ClientSaw(Rec[l]))
-       [] Ev = "final"                 -> Obs(pc = "poll" /\ A[2] = 0 /\ CountConsistent /\ QueueConservation)   \* no pacing deadline was missed
+       [] Ev = "final"                 -> Obs(pc = "poll" /\ A[2] = 0 /\ CountConsistent /\ QueueConservation   \* no pacing deadline was missed
+                                              /\ (A[3] = 1 => chan = <<>>))  \* with a reader connected throughout, nothing stays in the channel
        [] OTHER -> FALSE                \* crash / build_error / unknown
 
 TraceInit == Init /\ l = 1
